@@ -57,8 +57,20 @@ func (w *World) rangeLoops(fi *FuncInfo, pred func(x ast.Expr) bool) []*ast.Rang
 	for i, f := range w.astRegion(fi) {
 		f := f
 		ast.Inspect(f.Decl, func(n ast.Node) bool {
+			// an index loop `for i := 0; i < len(x); i++` visits the elements of x like `range x`
+			if fs, isFor := n.(*ast.ForStmt); isFor {
+				if x := indexLoopCollection(f.Pkg.TypesInfo, fs); x != nil && pred(x) {
+					out = append(out, w.forAsRangeStmt(fs, x))
+				}
+				return true
+			}
 			r, ok := n.(*ast.RangeStmt)
 			if !ok {
+				return true
+			}
+			// `for i := range len(x)`
+			if c, isCall := ast.Unparen(r.X).(*ast.CallExpr); isCall && len(c.Args) == 1 && calleeOfCall(f.Pkg.TypesInfo, c) == "builtin.len" && pred(c.Args[0]) {
+				out = append(out, r)
 				return true
 			}
 			if pred(r.X) {
@@ -125,16 +137,24 @@ func (w *World) eachIteration(fi *FuncInfo, g *cfg.CFG, r *ast.RangeStmt, target
 		return false
 	}
 	var body, loop, done *cfg.Block
+	var loopStmt ast.Stmt = r
+	if fs := w.forOfRange[r]; fs != nil {
+		loopStmt = fs
+	}
 	for _, b := range g.Blocks {
-		if b.Stmt != ast.Stmt(r) {
+		if b.Stmt != loopStmt {
 			continue
 		}
 		switch b.Kind {
-		case cfg.KindRangeBody:
+		case cfg.KindRangeBody, cfg.KindForBody:
 			body = b
-		case cfg.KindRangeLoop:
+		case cfg.KindRangeLoop, cfg.KindForPost:
 			loop = b
-		case cfg.KindRangeDone:
+		case cfg.KindForLoop:
+			if loop == nil {
+				loop = b
+			}
+		case cfg.KindRangeDone, cfg.KindForDone:
 			done = b
 		}
 	}
@@ -636,4 +656,45 @@ func (w *World) commaOkOf(fi *FuncInfo, kind, typeStr string) func(ast.Expr) boo
 		}
 		return false
 	}
+}
+
+// indexLoopCollection: for `for i := …; i < len(x); i++ { … }` the collection x, else nil.
+func indexLoopCollection(info *types.Info, fs *ast.ForStmt) ast.Expr {
+	be, ok := ast.Unparen(fs.Cond).(*ast.BinaryExpr)
+	if !ok || fs.Post == nil {
+		return nil
+	}
+	var lenSide ast.Expr
+	switch be.Op {
+	case token.LSS, token.NEQ:
+		lenSide = be.Y
+	case token.GTR:
+		lenSide = be.X
+	default:
+		return nil
+	}
+	c, ok := ast.Unparen(lenSide).(*ast.CallExpr)
+	if !ok || len(c.Args) != 1 || calleeOfCall(info, c) != "builtin.len" {
+		return nil
+	}
+	if _, isInc := fs.Post.(*ast.IncDecStmt); !isInc {
+		return nil
+	}
+	return c.Args[0]
+}
+
+// forAsRangeStmt presents an index loop as a range statement over its collection (the
+// each-iteration engine maps it back to the for statement's blocks).
+func (w *World) forAsRangeStmt(fs *ast.ForStmt, x ast.Expr) *ast.RangeStmt {
+	if r, ok := w.rangeOfFor[fs]; ok {
+		return r
+	}
+	r := &ast.RangeStmt{For: fs.For, X: x, Body: fs.Body}
+	if w.rangeOfFor == nil {
+		w.rangeOfFor = map[*ast.ForStmt]*ast.RangeStmt{}
+		w.forOfRange = map[*ast.RangeStmt]*ast.ForStmt{}
+	}
+	w.rangeOfFor[fs] = r
+	w.forOfRange[r] = fs
+	return r
 }
